@@ -1019,7 +1019,7 @@ impl<'a> Builder<'a> {
                     finished
                 });
             }
-            Op::MkSink { fut, slot, tag, pending_first } => {
+            Op::MkSink { fut, slot, tag, pending_first, .. } => {
                 let n = self.slots.remove(slot);
                 self.futs.insert(
                     *fut,
@@ -1172,7 +1172,7 @@ impl<'a> Builder<'a> {
                     }
                 }
             }
-            Op::Cycle | Op::Flush | Op::Signal(_) | Op::Wait(_) | Op::Fill { .. } | Op::BusyWait { .. } | Op::Warm | Op::RandomIds | Op::AtThreadExit { .. } => {}
+            Op::Cycle | Op::Flush | Op::Signal(_) | Op::Wait(_) | Op::Fill { .. } | Op::BusyWait { .. } | Op::BuildEvent { .. } | Op::SetReporter | Op::Warm | Op::RandomIds | Op::AtThreadExit { .. } => {}
             Op::RootRandom { slot, .. } => {
                 // the trace id is not known to the model: nothing is defined for this trace
                 let name = format!("noop@{}.{}.{}", actor, idx, self.next_order());
